@@ -252,6 +252,9 @@ def multisphere(check, prog, canon):
                   'C_ext = (4 pi / k^2) Re(pol . A(theta=0, phi=0) pol)', loc,
                   fail_detail='C_ext = %s' % c0.show(v)[:300])
     c09.cscat_interpolation(check, prog)
+    # a lossless cluster absorbs nothing only if the interaction equations are
+    # solved with the translation matrices of the pair at hand (rule shared with C09)
+    c09.work_array_regions(check, prog)
     q = MS + '.raw_cross_sections'
     fd = prog.func(q)
     loc = prog.loc(q, fd)
